@@ -1,8 +1,10 @@
-from lv.checks import labrun, save
+from lv.checks import history, labrun, save
 
 REGISTRY = {}
-REPLAYERS = {'save-fault': save.replay}
+REPLAYERS = {'save-fault': save.replay, 'history': history.replay}
 for _p in labrun.SPECS:
     REGISTRY[_p] = labrun.run
 REGISTRY['C12'] = save.run
 REGISTRY['C13'] = save.run
+REGISTRY['C06'] = history.run
+REGISTRY['C08'] = history.run
